@@ -45,6 +45,9 @@ type StreamScenario struct {
 	Sink string `json:"sink,omitempty"`
 	// PeerEnd: "" (stays), "close" / "abort" after everything went quiet.
 	PeerEnd string `json:"peer_end,omitempty"`
+	// UpgradeDeadlineUs > 0 (client side): the Upgrade exchange runs under a
+	// context with this deadline; the operations afterwards use their own contexts.
+	UpgradeDeadlineUs int `json:"upgrade_deadline_us,omitempty"`
 
 	cancelServe func()
 }
@@ -320,15 +323,21 @@ func (s *StreamScenario) Setup(k *sim.Kernel) {
 				conn = varlink.VerifNewConnection(c.Client)
 			}
 			ctx := context.Background()
-			recv, err := conn.Upgrade(ctx, "a.b.Up", json.RawMessage(`{"x":1}`))
+			uctx := context.Context(ctx)
+			failKind := "upgrade.fail"
+			if s.UpgradeDeadlineUs > 0 {
+				uctx = sim.NewCtx(time.Duration(s.UpgradeDeadlineUs) * time.Microsecond)
+				failKind = "upgrade.timedout" // its own deadline may expire: no finding
+			}
+			recv, err := conn.Upgrade(uctx, "a.b.Up", json.RawMessage(`{"x":1}`))
 			if err != nil {
-				sim.Rec("upgrade.fail", err.Error())
+				sim.Rec(failKind, err.Error())
 				return
 			}
 			var out json.RawMessage
-			_, rw, err := recv(ctx, &out)
+			_, rw, err := recv(uctx, &out)
 			if err != nil {
-				sim.Rec("upgrade.fail", err.Error())
+				sim.Rec(failKind, err.Error())
 				return
 			}
 			sim.Rec("upgraded", "")
@@ -909,6 +918,9 @@ func genStreamBase(g *Gen, prop string) *StreamScenario {
 func genC18(seed uint64, tier string) Scenario {
 	g := NewGen(seed, 0xC18)
 	s := genStreamBase(g, "C18")
+	if s.Side == "client" && g.Pct(20) {
+		s.UpgradeDeadlineUs = []int{300, 2000, 200000}[g.IntN(3)]
+	}
 	s.Stream = genStreamBytes(g, 1+g.IntN(5*deeper(tier)), 300)
 	s.Peer = genPeerWrites(g, len(s.peerBytes()))
 	s.Ops = genReadOps(g, 1+g.IntN(12*deeper(tier)))
